@@ -286,9 +286,22 @@ class SetUniquePrompt(Contract):
         last = expects[-1][1] if expects else None
         import z3
         r = z3.is_true(z3.simplify(v.result)) if is_sym(v.result) else bool(v.result)
+        # exactly one unique prompt per wait: every command that makes the shell print the new prompt is followed
+        # directly by the wait that consumes it (anything sent in between would leave a stale prompt in the stream,
+        # and prompt() would lag one command behind), and PROMPT_COMMAND is cleared before the first of them
+        me = v.old.self
+        setters = (me.PROMPT_SET_SH, me.PROMPT_SET_CSH, me.PROMPT_SET_ZSH)
+        is_setter = lambda e: e[0] == 'send' and any(eq(e[1], x) is True for x in setters)
+        setter_pos = [i for i, e in enumerate(d) if is_setter(e)]
+        unset_pos = [i for i, e in enumerate(d) if e[0] == 'send' and eq(e[1], 'unset PROMPT_COMMAND') is True]
         return [('C17:true-only-after-the-unique-prompt-was-seen', (not r) or last == 'index-1'),
                 ('C17:false-only-after-all-three-shell-flavours-timed-out', r or len(expects) == 3),
-                ('C17:every-wait-is-bounded', all(e[2] is not None for e in expects))]
+                ('C17:every-wait-is-bounded', all(e[2] is not None for e in expects)),
+                ('C17:each-prompt-change-is-followed-directly-by-its-wait',
+                 all(i + 1 < len(d) and d[i + 1][0] == 'expect' for i in setter_pos)),
+                ('C17:prompt-command-cleared-before-the-prompt-is-changed',
+                 len(unset_pos) == 1 and all(unset_pos[0] < i for i in setter_pos)),
+                ('C17:nothing-else-is-sent', all(is_setter(e) or i in unset_pos for i, e in enumerate(d) if e[0] == 'send'))]
 
 
 class Prompt(Contract):
